@@ -7,13 +7,18 @@ mod c01;
 mod c03;
 mod c04;
 mod c07;
+mod c09;
 mod c10;
 mod c11;
+mod c12;
+mod c13;
+mod c14;
 mod c15;
 mod c16;
 mod c17;
 mod cone;
 mod c18;
+mod c19;
 mod refm;
 mod report;
 
@@ -76,12 +81,17 @@ fn main() {
         "C06" => cone::replay(case, true, &ctx.findings),
         "C07" => c07::replay(case, c07::Mode::Moc),
         "C08" => c07::replay(case, c07::Mode::Bmoc),
+        "C09" => c09::replay(case),
         "C10" => c10::replay(case),
         "C11" => c11::replay(case, &ctx.findings),
+        "C12" => c12::replay(case),
+        "C13" => c13::replay(case, &ctx.findings),
+        "C14" => c14::replay(case),
         "C15" => c15::replay(case),
         "C16" => c16::replay(case, &ctx.findings),
         "C17" => c17::replay(case),
         "C18" => c18::replay(case),
+        "C19" => c19::replay(case),
         _ => { eprintln!("no replay for {}", id); std::process::exit(2); }
       }
     };
@@ -112,12 +122,17 @@ fn main() {
     "C06" => cone::run(&ctx, true),
     "C07" => c07::run(&ctx, c07::Mode::Moc),
     "C08" => c07::run(&ctx, c07::Mode::Bmoc),
+    "C09" => c09::run(&ctx),
     "C10" => c10::run(&ctx),
     "C11" => c11::run(&ctx),
+    "C12" => c12::run(&ctx),
+    "C13" => c13::run(&ctx),
+    "C14" => c14::run(&ctx),
     "C15" => c15::run(&ctx),
     "C16" => c16::run(&ctx),
     "C17" => c17::run(&ctx),
     "C18" => c18::run(&ctx),
+    "C19" => c19::run(&ctx),
     _ => { eprintln!("unknown property {}", id); 2 }
   };
   std::process::exit(code);
